@@ -158,6 +158,18 @@ mut("c18_scratch_decode_target", "C18", ["state:(*typedCollectionApplier[T]).app
 mut("c03_unguarded_lastoffset_read", "C03", ["(*EventBus).persistEvent#guard.read.EventBus.lastOffset"],
     [("persist.go", "\tbus.storeMu.Unlock()\n\n\t// Observability: Track persistence complete", "\tbus.storeMu.Unlock()\n\t_ = bus.lastOffset\n\n\t// Observability: Track persistence complete")])
 
+# ---------------------------------------------------------------- round 5: refinement, termination, pool, content
+mut("c10_mem_read_inclusive", "C10", ["(*MemoryStore).Read#cs.C10.read.pos.lo"],
+    [("persist.go", "\t\tif from == OffsetOldest || event.Offset > from {\n\t\t\tresult = append(result, event)", "\t\tif from == OffsetOldest || event.Offset >= from {\n\t\t\tresult = append(result, event)")])
+mut("c10_mem_read_next_stale", "C10", ["(*MemoryStore).Read#cs.C10.read.r5a"],
+    [("persist.go", "\t\t\tresult = append(result, event)\n\t\t\tlastOffset = event.Offset\n", "\t\t\tresult = append(result, event)\n\t\t\tif limit <= 0 {\n\t\t\t\tlastOffset = event.Offset\n\t\t\t}\n")])
+mut("c16_dfs_mark_dropped", "C16", ["(*upcastRegistry).hasCycleDFS#loop1.inv.C16.dfs.loop.target.entry"],
+    [("upcast.go", "\tvisited[current] = true\n", "\t_ = visited[current]\n")])
+mut("c03_sqlite_single_conn", "C03", ["stores/sqlite:New#post.C03.sqlite.pool"],
+    [("stores/sqlite/store.go", "\t// Apply pragmas for performance\n", "\tdb.SetMaxOpenConns(1)\n\t// Apply pragmas for performance\n")])
+mut("c19_ds_read_type_from_offset", "C19 C10", ["stores/durablestream:(*Store).Read#loop1.inv.C10.ds.read.content.preserve"],
+    [("stores/durablestream/store.go", "\t\t\tType:      eventWithOffset.Type,\n", "\t\t\tType:      eventWithOffset.Type + eventWithOffset.Offset,\n")])
+
 def main():
     os.makedirs(OUT, exist_ok=True)
     for f in os.listdir(OUT):
